@@ -542,12 +542,15 @@ func init() {
 			}
 		}
 		saved, savedBudget := in.orderMode, in.stepBudget
+		steps, alloc := in.steps, in.allocBytes
 		in.orderMode = mode
 		in.stepBudget = 1 << 30
 		depth := len(in.stack)
 		in.callFunction(in.w.mq.Func("init"), nil, nil)
 		in.stack = in.stack[:depth]
 		in.orderMode, in.stepBudget = saved, savedBudget
+		// the work of package initialisation is not charged to the operations
+		in.steps, in.allocBytes = steps, alloc
 		return nil
 	})
 	_ = types.Typ
